@@ -34,6 +34,10 @@ def main() -> int:
             j = run.job(d, want=["manifest"], plan={"fn": "c10", "args": {"seed": seed()}}, cfg={"literal_enums": le})
             info[j["id"]] = ("matrix:" + label, {label.split(":")[1]})
             jobs.append(j)
+    for label, d in docs.sharing_docs():
+        j = run.job(d, want=["manifest"], plan={"fn": "c10", "args": {"seed": seed()}}, cfg={"literal_enums": label.endswith(("1", "3"))})
+        info[j["id"]] = (label, {"sharing"})
+        jobs.append(j)
     for i in range(120 if quick else 3000):
         d, feats = docs.random_doc(("C10", seed(), i))
         j = run.job(d, want=["manifest"], plan={"fn": "c10", "args": {"seed": seed() * 7919 + i}}, cfg={"literal_enums": i % 4 == 3})
